@@ -4,6 +4,8 @@
      quara/loss_function/weighted_relative_entropy.py                : WeightedRelativeEntropyOption.__init__,
                                                                        WeightedRelativeEntropy._set_weights_by_mode
      quara/utils/matrix_util.py                                      : replace_prob_dist
+     quara/loss_function/probability_based_loss_function.py          : set_from_standard_qtomography_option_data (call skeleton)
+     quara/loss_function/standard_qtomography_based_weighted_*.py    : cache rebuild, overridden setters, set_func_* (call skeletons)
    The regenerated decision tables equal the hand-written ones (Model/C12_Dispatch.v, which Proofs/C12_Dispatch.v ties to the
    state-machine model of Model/C12_Loss.v), for ALL inputs, hence "every accepted mode installs weights" holds for the
    source as it is.  The proofs go by case analysis on the mode string, so re-ordering the branches / the accepted list or
@@ -11,8 +13,8 @@
    sample / unbiased, other slice bounds, another replacement formula breaks them. *)
 From Coq Require Import String List Bool ZArith Arith Lia.
 From QV.Core Require Import OF Sums Mat.
-From QV.Model Require Import C12_Loss C12_Dispatch.
-From QV.Proofs Require Import C12_Dispatch.
+From QV.Model Require Import C12_Loss C12_Dispatch C12_Skeleton.
+From QV.Proofs Require Import C12_Dispatch C12_Skeleton.
 From QVGen Require Import Gen_c12_dispatch.
 Import ListNotations.
 Open Scope string_scope.
@@ -93,3 +95,44 @@ Theorem gen_replace_default_eps_is_1e8 :
   gen_replace_default_eps_num = 3022314549036573%Z /\ gen_replace_default_eps_den = (2 ^ 78)%Z.
 Proof. split; vm_compute; reflexivity. Qed.
 Print Assumptions gen_replace_default_eps_is_1e8.
+
+(* ------------------------------------------------------------------ call skeletons *)
+(* the REGENERATED configuration sequence + the regenerated fast-class methods + the regenerated dispatcher, given their
+   meaning (Model/C12_Skeleton.v), ARE one step of the state machine the harness executes and the theorems of Props/C12.v
+   talk about - for every mode string the option can hold, both flags, every object state, every option identity.
+   (proved by computation over all cases, so an equivalent re-ordering of the calls keeps it valid; a guard around
+   _set_weights_by_mode, a cache rebuild that is dropped or moved before the weights are stored, a setter that no longer
+   rebuilds, a cache that is not cleared without weights break it) *)
+Theorem gen_configuration_is_state_machine_fast : forall (R : CR) m gr he oid s md (c : @wts R) k (os : @ostate R),
+  mode_of_string s = Some md ->
+  sem_config_fast m gen_se_bodies gen_sk_config gr he oid (gen_se_dispatch (Some s)) c k os = step_fast_o m (OConfig oid md c k) os.
+Proof. intros R m gr he oid s md c k os H. rewrite gen_se_dispatch_eq. unfold se_dispatch. rewrite H.
+  rewrite <- (sk_config_fast m gr he oid md c k os).
+  destruct os as [[[w|] e] o], md, gr, he, k as [k|], c as [c|]; reflexivity. Qed.
+Print Assumptions gen_configuration_is_state_machine_fast.
+
+Theorem gen_configuration_is_state_machine_generic : forall (R : CR) gr he oid s md (c : @wts R) k (cur : @wts R * option nat),
+  mode_of_string s = Some md ->
+  sem_config_generic gen_sk_config gr he oid (gen_se_dispatch (Some s)) c k cur = step_generic_o (OConfig oid md c k) cur.
+Proof. intros R gr he oid s md c k cur H. rewrite gen_se_dispatch_eq. unfold se_dispatch. rewrite H.
+  destruct cur as [[w|] o], md, gr, he, k as [k|], c as [c|]; reflexivity. Qed.
+Print Assumptions gen_configuration_is_state_machine_generic.
+
+Theorem gen_setter_is_state_machine : forall (R : CR) m (w : @wts R) (st : @fstate R) hasq (wr : option (@vec R)) (rs : @rstate R),
+  sem_setter (sem_calc_ext m (sb_calc gen_se_bodies)) (sb_setter gen_se_bodies) w st = set_direct_fast m w st /\
+  sem_setter_re (sem_calc_ew m (sb_calc gen_re_bodies)) (sb_setter gen_re_bodies) hasq wr rs = set_weights_re_fast m hasq wr rs.
+Proof. intros. split.
+  - destruct st as [w0 e], w as [w|]; reflexivity.
+  - destruct rs as [w0 e], wr as [wr|], hasq; reflexivity. Qed.
+Print Assumptions gen_setter_is_state_machine.
+
+(* relative entropy: equality of everything value() / gradient() can observe (the weights, what re_fast_sel selects - incl.
+   "attribute missing" -, the held option); the content of a cache that is not consulted (no weights) is left free, so that
+   the order of the calls inside the configuration may change *)
+Theorem gen_configuration_is_state_machine_re_fast : forall (R : CR) m gr he oid (cm : bool) (c : option (@vec R)) (os : @rostate R),
+  let a := sem_config_re_fast m gen_re_bodies gen_sk_config gr he oid (gen_re_dispatch (Some (if cm then "custom" else "identity"))) c os in
+  let b := step_re_fast_o m (ROConfig oid cm c) os in
+  r_w (ro_st a) = r_w (ro_st b) /\ re_fast_sel (ro_st a) = re_fast_sel (ro_st b) /\ ro_opt a = ro_opt b.
+Proof. intros. subst a b. rewrite gen_re_dispatch_eq.
+  destruct os as [[[w|] e] o], cm, c as [c|], gr, he; repeat split; reflexivity. Qed.
+Print Assumptions gen_configuration_is_state_machine_re_fast.
